@@ -780,6 +780,8 @@ struct GenMem {
     fresh_key: u64,
     /// the Create / Create2 operation that deployed a contract (to re-deploy it after it died)
     origin: BTreeMap<u64, IOp>,
+    /// deployments whose target address was pre-funded by an earlier Send (a placeholder sits there)
+    planned: Vec<IOp>,
 }
 
 fn gen_op(r: &mut Prng, w: &World, s: &Snap, m: &mut GenMem) -> IOp {
@@ -806,6 +808,13 @@ fn gen_op(r: &mut Prng, w: &World, s: &Snap, m: &mut GenMem) -> IOp {
             if r.chance(50) { *ic = gen_icode(r, 1) }
         }
         return op;
+    }
+    // deploy over an address that an earlier Send pre-funded
+    if !m.planned.is_empty() && r.chance(30) {
+        let k = r.below(m.planned.len() as u64) as usize;
+        let mut op = m.planned.swap_remove(k);
+        if let IOp::EamCreate { ic, .. } = &mut op { *ic = gen_icode(r, 1) }
+        if s.actors.contains_key(&op_from(&op)) { return op; }
     }
     let roll = r.below(100);
     // bootstrap: make sure there is a factory early on
@@ -906,23 +915,25 @@ fn gen_op(r: &mut Prng, w: &World, s: &Snap, m: &mut GenMem) -> IOp {
                 0..=14 => { m.fresh_key += 1; let mut k = [0u8; 65]; k[..8].copy_from_slice(&m.fresh_key.to_be_bytes()); k[9] = r.below(3) as u8; Dest::Addr(Address::new_secp256k1(&k).unwrap().to_bytes()) }
                 15..=21 => { let mut k = [0u8; 48]; k[..8].copy_from_slice(&r.below(4).to_be_bytes()); Dest::Addr(Address::new_bls(&k).unwrap().to_bytes()) }
                 22..=31 => Dest::Addr(f410(&r.bytes(20))),
-                32..=49 if !evm.is_empty() => {
+                32..=54 if !evm.is_empty() => {
                     // the address a contract will create next (CREATE at its current nonce, or CREATE2 with a pool salt)
-                    let (_, a) = r.pick(&evm);
+                    let (cid, a) = r.pick(&evm);
                     let from = eth_of(a).unwrap_or(vec![0; 20]);
                     if r.chance(50) {
                         let n = a.evm.as_ref().unwrap().nonce + r.below(2);
+                        m.planned.push(IOp::EamCreate { from: *cid, nonce: n, ic: ICode::Kill, force: None });
                         Dest::Addr(f410(&real_keccak(&rlp_addr_nonce(&from, n))[12..]))
                     } else {
                         let mut p = vec![0xff];
                         p.extend_from_slice(&from);
-                        let sl: &Vec<u8> = r.pick(&m.salts);
-                        p.extend_from_slice(sl);
+                        let sl: Vec<u8> = r.pick(&m.salts).clone();
+                        p.extend_from_slice(&sl);
                         p.extend_from_slice(&real_keccak(&initcode(&ICode::Kill)));
+                        m.planned.push(IOp::EamCreate2 { from: *cid, salt: sl, ic: ICode::Kill, force: None });
                         Dest::Addr(f410(&real_keccak(&p)[12..]))
                     }
                 }
-                50..=57 => {
+                55..=59 => {
                     // where an account's / eth account's next CreateExternal will land
                     let u = user(r);
                     let a = &s.actors[&u];
@@ -932,7 +943,7 @@ fn gen_op(r: &mut Prng, w: &World, s: &Snap, m: &mut GenMem) -> IOp {
                     };
                     Dest::Addr(f410(&real_keccak(&rlp_addr_nonce(&stable, a.seq + r.below(2)))[12..]))
                 }
-                58..=63 => { let mut a = vec![0u8; 20]; a[19] = 1 + r.below(9) as u8; if r.chance(50) { a[0] = 0xfe } Dest::Addr(f410(&a)) }
+                60..=63 => { let mut a = vec![0u8; 20]; a[19] = 1 + r.below(9) as u8; if r.chance(50) { a[0] = 0xfe } Dest::Addr(f410(&a)) }
                 64..=69 => { let n = 1 + r.below(30) as usize; let ns = *r.pick(&[5u64, 1, 101, 7]); Dest::Addr(Address::new_delegated(ns, &r.bytes(n)).unwrap().to_bytes()) }
                 70..=75 => Dest::Addr(Address::new_delegated(*r.pick(&[77u64, 5000, 1 << 40]), &r.bytes(20)).unwrap().to_bytes()),
                 76..=80 => Dest::Addr(Address::new_actor(&r.bytes(8)).to_bytes()),
@@ -949,6 +960,8 @@ fn gen_op(r: &mut Prng, w: &World, s: &Snap, m: &mut GenMem) -> IOp {
 // monitor: the property's predicates evaluated on the implementation's own states
 struct Mon {
     returned_new: HashSet<u64>,
+    /// (address bytes, id) pairs a successful Exec / Exec4 / CreateMiner / Create* handed out
+    promised: Vec<(Vec<u8>, u64)>,
 }
 
 fn monitor(op: &IOp, pre: &Snap, post: &Snap, o: &Outcome, m: &mut Mon) -> Vec<(String, String)> {
@@ -1034,6 +1047,22 @@ fn monitor(op: &IOp, pre: &Snap, post: &Snap, o: &Outcome, m: &mut Mon) -> Vec<(
                     fail("nonce-consumed-without-funds", format!("factory {}: nonce {} -> {}", target, e0.nonce, e1.nonce));
                 }
             }
+        }
+    }
+    // every address returned together with an id resolves to that id in the init actor's map, from now on
+    if o.code == 0 {
+        match &o.ret {
+            RetObs::Exec(id, robust) => m.promised.push((robust.clone(), *id)),
+            RetObs::Eam(id, robust, eth) => {
+                if let Some(rb) = robust { m.promised.push((rb.clone(), *id)) }
+                m.promised.push((Address::new_delegated(EAM_ACTOR_ID, eth).unwrap().to_bytes(), *id));
+            }
+            _ => {}
+        }
+    }
+    for (a, id) in &m.promised {
+        if post.amap.get(a) != Some(id) {
+            fail("stable-address-not-mapped", format!("address {} was returned for actor {} but resolves to {:?}", hex::encode(a), id, post.amap.get(a)));
         }
     }
     if o.code == 0 {
@@ -1123,12 +1152,12 @@ fn run_case(pc: &ICase, stats: &mut Stats, genr: Option<(&mut Prng, usize)>) -> 
     let mut snap = snap0.clone();
     let mut steps = vec![];
     let mut ops_done = vec![];
-    let mut mon = Mon { returned_new: HashSet::new() };
+    let mut mon = Mon { returned_new: HashSet::new(), promised: vec![] };
     let mut fails = vec![];
     let (mut acc, mut rej) = (false, false);
     let mut genr = genr;
     let n = match &genr { Some((_, n)) => *n, None => pc.ops.len() };
-    let mut mem = GenMem { salts: (1u8..=3).map(|k| vec![k; 32]).collect(), fresh_key: 0, origin: BTreeMap::new() };
+    let mut mem = GenMem { salts: (1u8..=3).map(|k| vec![k; 32]).collect(), fresh_key: 0, origin: BTreeMap::new(), planned: vec![] };
     for i in 0..n {
         let op = match &mut genr { Some((r, _)) => gen_op(r, &w, &snap, &mut mem), None => pc.ops[i].clone() };
         if !snap.actors.contains_key(&op_from(&op)) {
